@@ -179,7 +179,8 @@ class ConveyorBelt(Edge):
             print(f"T={self.env.now:.2f}: {self.id }:put: item arrival event succeeded")
         else: 
             event= self.env.event()
-            self.put_events_available.succeed()
+            if not self.put_events_available.triggered:
+                self.put_events_available.succeed()
             if self.accumulating==0:
                 print(f"T={self.env.now:.2f}: {self.id }: attempting to put an item while non accumulating mode on and {self.state} and {self.belt.noaccumulation_mode_on}")
             print(f"T={self.env.now:.2f}: {self.id }:put: item arrival event else succeeded")
@@ -217,7 +218,8 @@ class ConveyorBelt(Edge):
         item.conveyor_exit_time = self.env.now
         self._conveyor_stats_collector()
         event= self.env.event()
-        self.get_events_available.succeed()
+        if not self.get_events_available.triggered:
+            self.get_events_available.succeed()
         print(f"{self.env.now} {item.id} time in conveyor {item.conveyor_entry_time} and {item.conveyor_exit_time} - time spend in conveyor {item.conveyor_exit_time - item.conveyor_entry_time if item.conveyor_exit_time and item.conveyor_entry_time else 'N/A'}")
         return item
 
